@@ -51,6 +51,13 @@ func H_ops() {
 			break
 		}
 		f := rt.Bytes("old"+string(rune('0'+i)), n)
+		if rt.HasParam("real") {
+			x := uint32(1000 + i)
+			for j := range f {
+				x = x*1103515245 + 12345
+				f[j] = byte(x >> 16)
+			}
+		}
 		restrict(f, alpha)
 		pool.files = append(pool.files, f)
 		err := ctx.CreateSignature(context.Background(), int64(i), bytes.NewReader(f), func(h wsync.BlockHash) error {
@@ -62,6 +69,20 @@ func H_ops() {
 	neu := rt.Bytes("new", rt.Param("nnew"))
 	restrict(neu, alpha)
 	pref := int64(rt.Param("pref"))
+	dataLimit := wsync.MaxDataOp
+	if rt.HasParam("real") {
+		// REGIME R: nothing is scaled and the limit is the documented 4 MiB, written out here. The new content is
+		// concrete pseudo-random (one symbolic byte), `real` bytes long, followed by old file 0's first block.
+		dataLimit = 4 * 1024 * 1024
+		neu = make([]byte, rt.Param("real"))
+		x := uint32(77)
+		for i := range neu {
+			x = x*1103515245 + 12345
+			neu[i] = byte(x >> 16)
+		}
+		neu[len(neu)/2] = rt.Byte("mid")
+		neu = append(neu, pool.files[0][:bs]...)
+	}
 
 	var ops []wsync.Operation
 	err := ctx.ComputeDiff(bytes.NewReader(neu), wsync.NewBlockLibrary(hashes), func(op wsync.Operation) error {
@@ -86,7 +107,7 @@ func H_ops() {
 				rt.Assert(ops[i-1].BlockIndex+ops[i-1].BlockSpan != op.BlockIndex, "consecutive ranges merged")
 			}
 		case wsync.OpData:
-			rt.Assert(len(op.Data) <= wsync.MaxDataOp, "data op within MaxDataOp")
+			rt.Assert(len(op.Data) <= dataLimit, "data op within MaxDataOp")
 			rt.Assert(len(op.Data) > 0 || i == 0, "empty data op only leading")
 		default:
 			rt.Fail("unknown op type")
